@@ -599,6 +599,9 @@ func c10r4(rc *core.RC) {
 				Info: info,
 				Invalidate: func(m ast.Node) []types.Object {
 					var out []types.Object
+					if _, isDefer := m.(*ast.DeferStmt); isDefer {
+						return nil // released when the function returns: handled below
+					}
 					ast.Inspect(m, func(k ast.Node) bool {
 						if c, ok := k.(*ast.CallExpr); ok && strings.HasSuffix(core.CalleeName(info, c), ".ReleaseRuntimeContext") && len(c.Args) == 1 {
 							if o := core.ObjOf(info, c.Args[0]); o != nil {
@@ -612,6 +615,35 @@ func c10r4(rc *core.RC) {
 				},
 			})
 			key := p.FuncName(fd) + "/use-after-release"
+			// a deferred release runs when the function returns: what the function returns must not be
+			// the context or a buffer derived from it
+			var deferred []types.Object
+			ast.Inspect(fd.Body, func(m ast.Node) bool {
+				if d, ok := m.(*ast.DeferStmt); ok && strings.HasSuffix(core.CalleeName(info, d.Call), ".ReleaseRuntimeContext") && len(d.Call.Args) == 1 {
+					if o := core.ObjOf(info, d.Call.Args[0]); o != nil {
+						deferred = append(deferred, o)
+						deferred = append(deferred, derived[o]...)
+					}
+				}
+				return true
+			})
+			escaped := false
+			if len(deferred) > 0 {
+				for _, r := range cf.Returns() {
+					for _, res := range r.Results {
+						o := core.ObjOf(info, res)
+						for _, d := range deferred {
+							if o != nil && o == d && !escaped {
+								escaped = true
+								rc.Bad(key, r.Pos(), "%s is returned while a deferred ReleaseRuntimeContext puts its context back into the pool on the way out: the caller receives memory another goroutine may already be writing", o.Name())
+							}
+						}
+					}
+				}
+			}
+			if escaped {
+				continue
+			}
 			if len(uses) == 0 {
 				rc.OK(key, fd.Pos(), "%d release site(s): neither the context nor a buffer derived from it is used afterwards", releases)
 				continue
